@@ -1154,15 +1154,47 @@ func round7(w *World, r *Report, prop string) {
 			v := w.Var("parse", "patternReplacements")
 			init, ip := w.VarInit(v)
 			lv := evalLit(ip, init)
-			if len(lv.KVs) == 0 {
-				panic(undecided{"parse.patternReplacements is not a keyed literal"})
+			// a map from escape to class, or a list of (escape, class) pairs
+			type entry struct {
+				k, v string
+				pos  token.Pos
 			}
-			re := regexp.MustCompile(`^\[\\x\{([0-9A-Fa-f]+)\}-\\x\{([0-9A-Fa-f]+)\}\]$`)
+			var entries []entry
+			str := func(l *LitVal) (string, bool) {
+				if l == nil || l.Const == nil || l.Const.Kind() != constant.String {
+					return "", false
+				}
+				return constant.StringVal(l.Const), true
+			}
 			for _, kv := range lv.KVs {
-				if kv.Key.Kind() != constant.String || kv.Val.Const == nil || kv.Val.Const.Kind() != constant.String {
+				v, okV := str(kv.Val)
+				if kv.Key.Kind() != constant.String || !okV {
 					panic(undecided{"parse.patternReplacements: an entry that is not string → string"})
 				}
-				k, val := constant.StringVal(kv.Key), constant.StringVal(kv.Val.Const)
+				entries = append(entries, entry{constant.StringVal(kv.Key), v, kv.Val.Node.Pos()})
+			}
+			for _, el := range lv.Elems {
+				var parts []*LitVal
+				parts = append(parts, el.Elems...)
+				for _, kv := range el.KVs {
+					parts = append(parts, kv.Val)
+				}
+				if len(parts) != 2 {
+					panic(undecided{"parse.patternReplacements: an entry that is not a pair of strings"})
+				}
+				k, ok1 := str(parts[0])
+				v, ok2 := str(parts[1])
+				if !ok1 || !ok2 {
+					panic(undecided{"parse.patternReplacements: an entry that is not a pair of strings"})
+				}
+				entries = append(entries, entry{k, v, el.Node.Pos()})
+			}
+			if len(entries) == 0 {
+				panic(undecided{"parse.patternReplacements is not a literal table"})
+			}
+			re := regexp.MustCompile(`^\[\\x\{([0-9A-Fa-f]+)\}-\\x\{([0-9A-Fa-f]+)\}\]$`)
+			for _, en := range entries {
+				k, val := en.k, en.v
 				name := strings.TrimSuffix(strings.TrimPrefix(k, `\p{Is`), "}")
 				want, known := blocks[name]
 				m := re.FindStringSubmatch(val)
@@ -1172,7 +1204,7 @@ func round7(w *World, r *Report, prop string) {
 					hi, _ := strconv.ParseInt(m[2], 16, 64)
 					good = lo == want[0] && hi == want[1]
 				}
-				r.Check(good, "R16.20", "patternReplacements["+k+"]", kv.Val.Node.Pos(), val, fmt.Sprintf("the block escape %s is translated to %s; XSD defines the block as U+%04X..U+%04X (or the block is not in the checker's table): strings with characters outside the block satisfy the pattern", k, val, want[0], want[1]))
+				r.Check(good, "R16.20", "patternReplacements["+k+"]", en.pos, val, fmt.Sprintf("the block escape %s is translated to %s; XSD defines the block as U+%04X..U+%04X (or the block is not in the checker's table): strings with characters outside the block satisfy the pattern", k, val, want[0], want[1]))
 			}
 		})
 		r.Rule("R16.19", "identityref values are named relative to the module the leaf is used in: the prefix stripped is the module name of the configuration node, and BuildBaseType hands that node on unchanged when it follows a typedef", 2)
